@@ -72,6 +72,9 @@ package mvp6_2
 //@   requires wired(m)
 //@   assume-before (*Context).Commit: m.ctx.Registers != nil && m.ctx.Transaction != nil
 //@   nooverflow cycle, m.counterFlush
+//@   -- (C03) an execute unit's error ends the run only if no flush was requested in the same cycle
+//@   -- by a unit scanned before it: a wrong-path instruction must not make the run fail (known finding F22)
+//@   return 0: !flush
 //@   loop 0: invariant cycle >= 0 && wired(m)
 //@   loop 0: exit writesDone(m)
 //@   loop 0: exit executeUnitsIdle(m)
